@@ -32,6 +32,7 @@ func init() {
 		{ID: "C09",
 			Harnesses: []harnessSpec{
 				{Name: "HarnessC09Definitions", Bounds: "one definition (name in {D, data, a}) holding a tree of depth <= 2 over properties / items / additionalProperties / allOf / nested object (member name in {p, a, data}) whose node is {type:number, maximum:2, default|example: 1 or 3}; defaults -> errors, examples -> warnings"},
+				{Name: "HarnessC09SimpleItems", Bounds: "defaults/examples on the items of a simple parameter or a response header, depth 1 or 2, violating type / enum / maximum / maxLength or not"},
 				{Name: "HarnessC09VisitedKernel", Bounds: "visited-path heuristic on definitions.<def>.<name>, def and name byte-vector strings of solver-chosen length 1..3 with unconstrained dot-free bytes"},
 				{Name: "HarnessC07ParamNames", Bounds: "parameter defaults (simple, items, body schema)"},
 			},
